@@ -4,7 +4,7 @@
 -/
 import Binson.Lemmas.WalkTr
 import Binson.Lemmas.WalkDesTop
-import Binson.Props.C05
+import Binson.Lemmas.WriterProps
 namespace Binson
 
 theorem walk_enc_arr_bounds (xs : Elems) :
